@@ -26,6 +26,10 @@ class SymLeak(Unsupported):
     """A symbolic value reached native code that needed its concrete value."""
 
 
+class SpecAbort(Exception):
+    """speculative (fork-free) evaluation of a boolean operand met a real fork or a heap write"""
+
+
 class PathEnd(Exception):
     """Silently ends the current path (assumption became infeasible, loop-body path done)."""
 
@@ -128,6 +132,14 @@ def pytype(v):
         return v.cls
     if type(v) is NDArr:
         return np.ndarray
+    if type(v).__module__ == "pyvc.shapely_model":
+        import shapely.geometry
+        import shapely.strtree
+
+        if type(v).__name__ == "Geom":
+            return shapely.geometry.Point if v.kind == "point" else shapely.geometry.Polygon
+        if type(v).__name__ == "STRtreeModel":
+            return shapely.strtree.STRtree
     return type(v)
 
 
@@ -311,8 +323,13 @@ class Ctx:
         self.inlined = set()
         self.ghost = {}
         self.unknown_branches = 0
+        self.spec_depth = 0  # > 0 while an operand of and/or is evaluated speculatively (no forks, no writes)
+        self.deadline = None  # wall-clock deadline of the contract being verified
+        self.thorough = False
         self.known_regions = {}  # obligation label -> region expression (known findings)
         self.round_terms = []
+        self.round_cache = {}
+        self.options = {}
 
     # -- fresh symbols ---------------------------------------------------------------
     def fresh_name(self, base):
@@ -337,6 +354,8 @@ class Ctx:
 
     # -- solver ----------------------------------------------------------------------
     def _check(self, *extra):
+        if self.deadline is not None and time.time() > self.deadline:
+            raise Unsupported("wall-clock budget for this contract exhausted")
         t0 = time.time()
         r = self.solver.check(*extra)
         self.solver_secs += time.time() - t0
@@ -380,15 +399,22 @@ class Ctx:
         if k < len(self.prefix):
             d = self.prefix[k]
             self.decisions.append(d)
+            if d == "A":
+                raise SpecAbort()
             self.solver.add(cond if d else z3.Not(cond))
             return d
+        self.solver.set("timeout", min(self.timeout_ms, 2000))  # feasibility only prunes: unknown => both sides explored
         rt = self._check(cond)
         rf = self._check(z3.Not(cond))
+        self.solver.set("timeout", self.timeout_ms)
         if rt == z3.unknown or rf == z3.unknown:
             self.unknown_branches += 1
         t_ok = rt != z3.unsat
         f_ok = rf != z3.unsat
         if t_ok and f_ok:
+            if self.spec_depth > 0:
+                self.decisions.append("A")  # recorded so that re-execution aborts the speculation at the same point
+                raise SpecAbort()
             self.pending.append(self.decisions + [False])
             self.decisions.append(True)
             self.solver.add(cond)
@@ -420,7 +446,9 @@ class Ctx:
         return bool(v)
 
     # -- obligations -----------------------------------------------------------------
-    def oblige(self, kind, label, cond, line=None, info=None, assume_after=True):
+    def oblige(self, kind, label, cond, line=None, info=None, assume_after=True, parts=None):
+        """parts: optional list of (name, condition) whose conjunction is `cond`; on failure the first part that is
+        false in the counter-model is named in the obligation's detail"""
         ob = Obligation(kind, label, line if line is not None else self.cur_line, self.cur_func)
         ob.info = info
         ob.path = list(self.decisions)
@@ -440,6 +468,14 @@ class Ctx:
                 ob.status = "failed"
                 m0 = self.solver.model()
                 ob.model = self._nice_model(cond) or m0
+                if parts:
+                    for pname, pc in parts:
+                        try:
+                            if z3.is_false(ob.model.eval(pc if not isinstance(pc, bool) else z3.BoolVal(pc), model_completion=True)):
+                                ob.detail = "fails for: %s" % pname
+                                break
+                        except z3.Z3Exception:
+                            pass
             else:
                 ob.status = "unknown"
                 ob.detail = self.solver.reason_unknown()
@@ -556,10 +592,12 @@ class Ctx:
     def _second_opinion(self, cond):
         if self.nlsat_check(cond) == z3.unsat:
             return "discharged", None, "z3-nlsat"
-        r = cvc5_check([*self.solver.assertions(), z3.Not(cond)], self.timeout_ms)
-        if r == "unsat":
-            return "discharged", None, "cvc5"
-        return "unknown", None, "z3+cvc5"
+        if self.thorough:
+            r = cvc5_check([*self.solver.assertions(), z3.Not(cond)], self.timeout_ms)
+            if r == "unsat":
+                return "discharged", None, "cvc5"
+            return "unknown", None, "z3+nlsat+cvc5"
+        return "unknown", None, "z3+nlsat"
 
     def record_exception_path(self):
         pass
